@@ -1554,7 +1554,8 @@ class Crystal(object):
                 for npass in range(len(self.BZG)):
                     folded = False
                     for G in self.BZG:
-                        if np.dot(k, G) > np.dot(G, G):
+                        # (relative margin: a point on a zone face, to within roundoff, must not be folded back and forth)
+                        if np.dot(k, G) > np.dot(G, G) * (1. + 1e-9):
                             k -= 2. * G
                             folded = True
                     if not folded: break
